@@ -1068,6 +1068,19 @@ def cross_oracle_evmtx(prop):
 
 
 def oracle_c17(run, ops, impl):
+    if run["model"] == "gentx":
+        # a gentx is delivered through DeliverTx (and the ante handler) at InitChain: an accepted one must respect the cap too
+        out = []
+        cap = 250_000_000_000_000_000
+        for i, (op, ob) in enumerate(zip(ops, impl)):
+            kv = dict(x.split("=", 1) for x in (op + " " + ob).split() if "=" in x)
+            if ob.startswith("panic"):
+                out.append(V("C17:panic-in-gentx-delivery", {"line": i + 1, "op": op}))
+            elif ob.startswith("accepted") and int(kv.get("maxrate", "0")) > cap:
+                out.append(V("C17:commission-above-cap:via=gentx", {"line": i + 1, "op": op, "obs": ob}))
+            elif ob.startswith("rejected") and int(kv.get("rate", "0")) <= cap:
+                out.append(V("C17:gentx-within-the-cap-refused", {"line": i + 1, "op": op}))
+        return out
     return oracle_msgtree(run, ops, impl, "C17")
 
 
@@ -1098,7 +1111,8 @@ PROPS["C02"] = {
 
 PROPS["C17"] = {
     "modules": ["NibiruProofs.C17"],
-    "runs": [{"model": "msgtree", "n_quick": 120, "n_thorough": 1500, "nontrivial": r"comm:\d+:(25(?!0{16})\d{16}|2[6-9]\d{16}|[3-9]\d{17}|1\d{18})"}],
+    "runs": [{"model": "msgtree", "n_quick": 120, "n_thorough": 1500, "nontrivial": r"comm:\d+:(25(?!0{16})\d{16}|2[6-9]\d{16}|[3-9]\d{17}|1\d{18})"},
+             {"model": "gentx", "n_quick": 8, "n_thorough": 60, "thorough_seeds": 4, "no_model": True, "per_line": True, "nontrivial": r"^(accepted|rejected)"}],
     "oracle": oracle_c17,
     "rule": MSGTREE_RULE + "; non-trivial = the tx contains a staking message with a commission above 25%",
     "assumptions": ["the cap theorem covers trees without wasm-dispatched staking messages; the wasm path is a proved counterexample "
